@@ -33,19 +33,50 @@ def Val.twice? : Val → Option Int
 
 inductive Cmp where
   | eq | ne | lt | le | gt | ge
+  | contains | startsWith | endsWith   -- string operators of the typed core (`FactValue::contains` / `starts_with` / `ends_with`)
+  | isIn                               -- `in` (`FactValue::in_array`): only an array on the right-hand side can make it true
 deriving Repr, DecidableEq
+
+/-- the text of the string with identifier `k` (harness/src/bin/c06.rs): `k ≥ 10000` = the word over {a, b, c} whose letters are
+the base-4 digits (1, 2, 3) of `k - 10000`, most significant first (`wab` = 10000 + 4·1 + 2); `1000 ≤ k < 10000` = the text
+`T<ty>.f<field>` of a dangling variable reference (`danglingVar`); otherwise `s<k>`.  Distinct identifiers have distinct texts
+(words use a–c only and never the digit 0 of base 4; the other two classes start with `T` / `s`). -/
+def wordLetters : Nat → Nat → List Char
+  | 0, _ => []
+  | fuel + 1, n => if n == 0 then [] else wordLetters fuel (n / 4) ++ [Char.ofNat (96 + n % 4)]
+
+def strChars (k : Nat) : List Char :=
+  if k ≥ 10000 then wordLetters (k - 10000 + 1) (k - 10000)
+  else if k ≥ 1000 then ("T" ++ toString ((k - 1000) / 100) ++ ".f" ++ toString ((k - 1000) % 100)).toList
+  else ("s" ++ toString k).toList
+
+/-- `str::contains` on character lists -/
+def isInfix (p s : List Char) : Bool := (List.range (s.length + 1)).any (fun i => p.isPrefixOf (s.drop i))
 
 /-- `FactValue::compare` on the typed core: `==`/`!=` structural (so `Integer(1) ≠ Float(1.0)`); ordering
 through `as_float` (integers and floats compare numerically across the two representations — booleans, nulls and
 non-numeric strings have no float value: `<`,`>` are false, `<=`,`>=` fall back to `==`) -/
 def Val.compare (a : Val) (op : Cmp) (b : Val) : Bool :=
   match op with
+  | .contains => (match a, b with | .str s, .str p => isInfix (strChars p) (strChars s) | _, _ => false)
+  | .startsWith => (match a, b with | .str s, .str p => (strChars p).isPrefixOf (strChars s) | _, _ => false)
+  | .endsWith => (match a, b with | .str s, .str p => (strChars p).reverse.isPrefixOf (strChars s).reverse | _, _ => false)
+  | .isIn => false                    -- the right-hand side is not an array (`Rhs.arr` is handled by `Val.compareArr`)
   | .eq => a == b
   | .ne => a != b
   | .lt => (match a.twice?, b.twice? with | some x, some y => decide (x < y) | _, _ => false)
   | .gt => (match a.twice?, b.twice? with | some x, some y => decide (x > y) | _, _ => false)
   | .le => (match a.twice?, b.twice? with | some x, some y => decide (x ≤ y) | _, _ => a == b)
   | .ge => (match a.twice?, b.twice? with | some x, some y => decide (x ≥ y) | _, _ => a == b)
+
+/-- `FactValue::compare` against an array literal `[v, …]` (no fact of the typed core holds an array): `in` is membership by
+structural equality; `!=` is true (different variants); everything else is false (`==`; the orderings have no float value and
+fall back to `==`; `contains` / `startsWith` / `endsWith` need a string pattern) -/
+def Val.compareArr (a : Val) (op : Cmp) (vs : List Val) : Bool :=
+  match op with
+  | .isIn => vs.contains a
+  | .ne => true
+  | _ => false
 
 abbrev Data := List (Nat × Val)       -- `TypedFacts` of one fact: field ↦ value (first binding wins)
 
@@ -63,6 +94,7 @@ def Data.set (d : Data) (f : Nat) (v : Val) : Data :=
 inductive Rhs where
   | lit (v : Val)
   | var (ty field : Nat)
+  | arr (vs : List Val)     -- array literal `[v, …]` (`parse_value_string`, array branch)
 deriving Repr, DecidableEq
 
 inductive Node where
@@ -82,10 +114,10 @@ def Node.eval (ty : Nat) (d : Data) : Node → Bool
     match (if t == ty then d.get f else none) with
     | none => false
     | some v =>
-      let expected := match rhs with
-        | .lit w => w
-        | .var t2 f2 => (match (if t2 == ty then d.get f2 else none) with | some w => w | none => danglingVar t2 f2)
-      v.compare op expected
+      match rhs with
+      | .lit w => v.compare op w
+      | .var t2 f2 => v.compare op (match (if t2 == ty then d.get f2 else none) with | some w => w | none => danglingVar t2 f2)
+      | .arr vs => v.compareArr op vs
   | .and l r => l.eval ty d && r.eval ty d
   | .or l r => l.eval ty d || r.eval ty d
   | .not n => !n.eval ty d
@@ -360,6 +392,7 @@ def loaderVal : Val → Val
 def loaderNode : Node → Node
   | .alpha ty f op (.lit v) => .alpha ty f op (.lit (loaderVal v))
   | .alpha ty f op (.var t2 f2) => .alpha ty f op (.var t2 f2)
+  | .alpha ty f op (.arr vs) => .alpha ty f op (.arr (vs.map loaderVal))   -- `value_to_string` element by element
   | .and l r => .and (loaderNode l) (loaderNode r)
   | .or l r => .or (loaderNode l) (loaderNode r)
   | .not n => .not (loaderNode n)
@@ -377,6 +410,7 @@ def Val.grlExact : Val → Bool
 def Node.grlExact : Node → Bool
   | .alpha _ _ _ (.lit v) => v.grlExact
   | .alpha _ _ _ (.var _ _) => true
+  | .alpha _ _ _ (.arr vs) => vs.all Val.grlExact
   | .and l r => l.grlExact && r.grlExact
   | .or l r => l.grlExact && r.grlExact
   | .not n => n.grlExact
